@@ -137,6 +137,16 @@ def _templates():
     add("merge-suffix-empty", [S("v1", "merge", ["A", "B"], on=["k"], how="left", suffixes=["", "_r"], broadcast=None, shuffle_method=None), S("v2", "filter_pred", ["v1"], pred=P("gt", "f", 0)), S("v3", "cols", ["v2"], cols=["f", "f_r", "k"])])
     for how in ("left", "right"):
         add(f"merge-{how}-suffix-empty-right", [S("v1", "merge", ["A", "B"], on=["k"], how=how, suffixes=["_l", ""], broadcast=None, shuffle_method=None), S("v2", "filter_pred", ["v1"], pred=P("gt", "f", 0)), S("v3", "cols", ["v2"], cols=["f", "f_l", "k"])])
+    for how in ("inner", "left", "right"):
+        add(f"merge-lr-indicator-broadcast-{how}", [S("v1", "merge_lr", ["A", "B"], left_on="k", right_on="m", how=how, indicator=True, broadcast=True, shuffle_method="tasks"),
+                                                     S("v2", "cols", ["v1"], cols=["_merge", "rid_p"])])
+    add("merge-lr-indicator-named-hash", [S("v1", "merge_lr", ["A", "B"], left_on="k", right_on="k", how="outer", indicator="side", broadcast=False, shuffle_method="tasks"),
+                                          S("v2", "filter_pred", ["v1"], pred=P("ge", "rid_p", 0))])
+    # D63: suffixed *key* columns (left_on != right_on, both names on both sides)
+    add("merge-lr-suffixed-keys", [S("v0", "cols", ["A"], cols=["k", "i", "rid"]), S("v1", "merge_lr", ["v0", "v0"], left_on="i", right_on="k", how="right", indicator=False, broadcast=None, shuffle_method=None),
+                                   S("v2", "cols", ["v1"], cols=["i_p", "k_q"])])
+    add("merge-lr-suffixed-right-key", [S("v0", "cols", ["A"], cols=["k", "i", "rid"]), S("v1", "merge_lr", ["v0", "v0"], left_on="i", right_on="k", how="inner", indicator=False, broadcast=None, shuffle_method="tasks"),
+                                        S("v2", "cols", ["v1"], cols=["k_q", "rid_p"])])
     add("merge-broadcast", [S("v1", "merge", ["A", "B"], on=["k"], how="inner", suffixes=None, broadcast=True, shuffle_method=None), S("v2", "cols", ["v1"], cols=["k", "rid_x", "rid_y"])])
     add("merge-tasks-two-keys", [S("v1", "merge", ["A", "B"], on=["k", "s"], how="outer", suffixes=None, broadcast=False, shuffle_method="tasks")])
     add("merge-self", [S("v1", "cols", ["A"], cols=["k", "f", "rid"]), S("v2", "merge", ["v1", "v1"], on=["k"], how="inner", suffixes=None, broadcast=None, shuffle_method=None), S("v3", "cols", ["v2"], cols=["f_x", "rid_y"])])
@@ -190,6 +200,9 @@ def _templates():
     # --- loc / where / misc
     add("loc-slice-elemwise", [S("v1", "loc_slice", ["A"], lo=4, hi=None), S("v2", "cols", ["v1"], cols=["f", "g"]), S("v3", "binop_scalar", ["v2"], op="add", c=1, r=False)], tags=("loc",))
     add("loc-slice-cols-3parts", [S("v1", "loc_slice", ["A"], lo=1, hi=6, cols=["g", "k"]), S("v2", "col", ["v1"], col="g")], tags=("loc",))
+    add("loc-list-unsorted", [S("v1", "loc_list", ["A"], labels=[5, 1, 3, 2]), S("v2", "cols", ["v1"], cols=["f", "rid"])], tags=("loc",))
+    add("loc-list-desc-filter", [S("v1", "loc_list", ["A"], labels=[5, 3, 2, 0]), S("v2", "filter_pred", ["v1"], pred=P("ge", "i", 0))], tags=("loc",))
+    add("loc-list-sorted-series", [S("v1", "col", ["A"], col="g"), S("v2", "loc_list", ["v1"], labels=[1, 2, 5])], tags=("loc",))
     add("loc-slice-col-scalar", [S("v1", "loc_slice", ["A"], lo=1, hi=None, cols="f")], tags=("loc",))
     add("nested-broadcast-chain", [S("v1", "col", ["A"], col="f"), S("v2", "col", ["A"], col="g"), S("v3", "col", ["A"], col="i"), S("v4", "reduce", ["v2"], how="sum", split_every=None),
                                    S("v5", "reduce", ["v3"], how="sum", split_every=None), S("v6", "scalar_arith", ["v4"], op="add", c=1, r=False), S("v7", "scalar_binop", ["v6", "v5"], op="add"),
@@ -303,6 +316,7 @@ SIBLINGS = [
     ("cut", {"how": "persist"}, {"how": "legacy"}),
     ("dropna", {"subset": ["f"]}, {"subset": ["g"]}),
     ("loc_slice", {"lo": 2, "hi": None}, {"lo": 4, "hi": None}),
+    ("loc_list", {"labels": [5, 1, 3]}, {"labels": [1, 3, 5]}),
     ("merge", {"on": ["k"], "how": "inner", "suffixes": None, "broadcast": None, "shuffle_method": "tasks"}, {"on": ["k"], "how": "left", "suffixes": None, "broadcast": None, "shuffle_method": "tasks"}),
     ("merge", {"on": ["k"], "how": "inner", "suffixes": None, "broadcast": True, "shuffle_method": None}, {"on": ["k"], "how": "inner", "suffixes": None, "broadcast": False, "shuffle_method": "tasks"}),
 ]
@@ -313,7 +327,7 @@ def sibling_cases(tier):
     lays = LAYOUTS_A[1:6] if tier == "quick" else LAYOUTS_A
     for si, (op, a1, a2) in enumerate(SIBLINGS):
         for li, la in enumerate(lays):
-            if op == "loc_slice" and not la.get("known") and la["kind"] != "from_pandas":
+            if op in ("loc_slice", "loc_list") and not la.get("known") and la["kind"] != "from_pandas":
                 continue
             ins = ["t0", "t1"] if op == "merge" else ["t0"]
             pre = []
